@@ -12,6 +12,10 @@ import (
 
 type MemoryCache struct {
 	backend otter.CacheWithVariableTTL[string, *cacheEntry]
+	// storeMu serialises stores. Storing with setNX may have to look at the
+	// entry that is in the way and then replace it: nothing else must be
+	// stored in between.
+	storeMu sync.Mutex
 
 	getTotal prometheus.Counter
 	hitTotal prometheus.Counter
@@ -65,6 +69,8 @@ func (c *MemoryCache) Store(k []byte, storedTime, expireTime time.Time, v []byte
 	e.l.Unlock()
 
 	ttl := time.Until(expireTime)
+	c.storeMu.Lock()
+	defer c.storeMu.Unlock()
 	if setNX {
 		if !c.backend.SetIfAbsent(ks, e, ttl) {
 			// The backend keeps an expired entry until it gets around to
